@@ -3,7 +3,7 @@
    and re-exported.  Statements only. *)
 From Coq Require Import List NArith ZArith.
 From IonV Require Import Base.Wire Data.Ion Bin.BinWriter Bin.BinWriterP.
-From IonV Require Export Props.C12text.
+From IonV Require Export Props.C12text Props.C12bin2.
 Import ListNotations.
 
 (* no call panics, whatever the sequence (NewBinaryWriter(out), any io.Writer failure budget) *)
